@@ -6,7 +6,7 @@ import ast
 
 from engine.core import AnalysisError, Repo, norm, walk_no_nested
 from engine.effects import Effects
-from engine.flow import Walker
+from engine.flow import Walker, enum_paths
 from engine.mutate import Mutant
 from engine.report import Result
 from rules.handlers import AF, inventory, module_helpers
@@ -212,6 +212,29 @@ def raise_after_write(repo, res):
             res.ok(key, r2)
 
     run(arr.func("unyt_array.convert_to_units"), {"self"}, "convert_to_units", accepted_raisers=("self.convert_to_equivalent(units, equivalence, **kwargs)",))
+    # relabel last: NumPy's in-place operations on the buffer can themselves refuse (read-only memory, casting),
+    # the attribute store cannot - so on every path the unit is assigned after the last buffer write
+    cfn = arr.func("unyt_array.convert_to_units")
+    ceff = Effects(cfn)
+    n_lab = 0
+    late = None
+    for pth in enum_paths(cfn.body):
+        labelled = False
+        for ev in pth:
+            if ev[0] != "stmt":
+                continue
+            st = ev[1]
+            if isinstance(st, ast.Assign) and any(norm(t) == "self.units" for t in st.targets):
+                labelled = True
+                n_lab += 1
+                continue
+            if labelled:
+                for aliases, text, node in ceff.writes(st):
+                    if "self" in {a.split(".")[0] for a in aliases} and not any(a.endswith(".units") for a in aliases):
+                        late = late or (st, text)
+    if n_lab == 0:
+        raise AnalysisError(f"{cfn.where()}: store to self.units not found")
+    res.check(late is None, "convert_to_units:relabel-last", cfn.where(late[0]) if late else cfn.where(), "convert_to_units assigns the new unit before it has finished converting the numbers: when the in-place NumPy operation refuses (e.g. a read-only buffer) the array keeps its old numbers under the new unit", "self.units = new_units after the last in-place operation", late[1] if late else "", rid=r2)
     # convert_to_equivalent: final unit conversion after the in-place equivalence is the accepted idiom
     fn = arr.func("unyt_array.convert_to_equivalent")
     eff_calls = [c for c in ast.walk(fn.node) if isinstance(c, ast.Call) and isinstance(c.func, ast.Attribute) and c.func.attr == "convert" and c.args and norm(c.args[0]) == "self"]
@@ -331,6 +354,8 @@ MUTANTS = [
     Mutant("allclose-converts-inplace", ARR, "allclose_units", "        des = des.in_units(act.units)", "        des.convert_to_units(act.units)", ("C18-R1",)),
     Mutant("setitem-store-first", ARR, "unyt_array.__setitem__", "        if hasattr(value, \"units\"):", "        super().__setitem__(item, 0)\n        if hasattr(value, \"units\"):", ("C18-R2",)),
     Mutant("convert-units-before-factor", ARR, "unyt_array.convert_to_units", "        units = _sanitize_units_convert(units, self.units.registry)\n        if equivalence is None:", "        units = _sanitize_units_convert(units, self.units.registry)\n        self.name = None\n        self.units = units\n        units = _sanitize_units_convert(units, self.units.registry)\n        if equivalence is None:", ("C18-R2",)),
+    Mutant("convert-relabels-first", ARR, "unyt_array.convert_to_units", "            values *= conv_factor\n", "            self.units = new_units\n            values *= conv_factor\n", ("C18-R2",)),
+    Mutant("unary-evaluates-first", ARR, "unyt_array.__array_ufunc__", "            # evaluate the ufunc\n            out_arr = func(np.asarray(inp), out=out_func, **kwargs)\n", "", ("C18-R2",), more=[(ARR, "unyt_array.__array_ufunc__", "            # get unit of result first:", "            out_arr = func(np.asarray(inp), out=out_func, **kwargs)\n            # get unit of result first:", 1)]),
     Mutant("handler-validate-late", AF, "fill_diagonal", "    _validate_units_consistency_v2(a.units, val)\n    np.fill_diagonal._implementation(np.asarray(a), val, *args, **kwargs)", "    np.fill_diagonal._implementation(np.asarray(a), val, *args, **kwargs)\n    _validate_units_consistency_v2(a.units, val)", ("C18-R2", "C01-R4")),
     Mutant("twin-diverges", ARR, "unyt_array.convert_to_units", "(conv_factor, offset) = self.units.get_conversion_factor(\n                    new_units, self.dtype\n                )", "(conv_factor, offset) = self.units.get_conversion_factor(\n                    new_units\n                )", ("C18-R3",)),
 ]
